@@ -129,6 +129,7 @@ func main() {
 	}
 	refused = append(refused, opBatch([]batchItem{{k: 'r', f: f1("db1")}, {k: 'u', f: f2("db2")}, {k: 'd', path: "db1/m/f1.parquet"}}))
 	directed = append(directed, refused)
+	directed = append(directed, membershipDirected()...)
 	for _, ops := range directed {
 		cfg := full
 		for k := 0; k <= len(ops); k++ {
@@ -156,6 +157,15 @@ func main() {
 		}
 		exh += enumerate(c, alpha, n, cfg)
 	}
+	// membership words over a fixed org/2 teams/2 tokens prefix (tokens in several teams, teams with
+	// several tokens, partial removals, then cascades), snapshot+restore and one replay per word
+	ml := 3
+	if c.Thorough() {
+		ml = 4
+	}
+	for n := 1; n <= ml; n++ {
+		exh += enumerateOps(c, membershipPrefix(), membershipAlphabet(), n, runCfg{c22: true, quiet: true, replayAt: []int{5 + n - 1}})
+	}
 	c.Extra["exhaustive_sequences"] = exh
 	c.Extra["exhaustive_alphabet"] = len(alpha)
 	c.Extra["exhaustive_max_len"] = maxLen
@@ -170,7 +180,9 @@ func main() {
 	}
 	for n := 0; n < nCases; n++ {
 		g := &gen{r: r, weights: allKinds}
-		if r.Chance(30) { // file/token heavy
+		if r.Chance(25) { // membership heavy
+			g.weights = membershipKinds
+		} else if r.Chance(30) { // file/token heavy
 			w := map[string]int{}
 			for k, v := range allKinds {
 				w[k] = v
